@@ -2,7 +2,11 @@
 // (which may not import openfga's internal packages) reach the same runtime.
 package vrt
 
-import in "github.com/openfga/openfga/internal/verifrt/vrt"
+import (
+	"context"
+
+	in "github.com/openfga/openfga/internal/verifrt/vrt"
+)
 
 type Case = in.Case
 
@@ -20,3 +24,8 @@ func SendCase(c any, v any) Case                          { return in.SendCase(c
 func As[T any](c <-chan T, v any) T                       { return in.As(c, v) }
 func AsBi[T any](c chan T, v any) T                       { return in.AsBi(c, v) }
 func SortedKeys[M ~map[K]V, K comparable, V any](m M) []K { return in.SortedKeys(m) }
+
+func CtxErr(ctx context.Context) error                     { return in.CtxErr(ctx) }
+func CtxCause(ctx context.Context) error                   { return in.CtxCause(ctx) }
+func CancelCall(f context.CancelFunc)                      { in.CancelCall(f) }
+func CancelCauseCall(f context.CancelCauseFunc, err error) { in.CancelCauseCall(f, err) }
